@@ -72,8 +72,9 @@ def bounds(tier):
 
 
 def plan(tier, seed):
-    return [{'k': 'plid', 'part': p, 'parts': 4} for p in range(4)] + [{'k': 'bmc'}, {'k': 'id'}, {'k': 'src'}, {'k': 'srcx'},
-                                                                       {'k': 'perm'}, {'k': 'subproc'}]
+    parts = 4 if tier == 'quick' else 16
+    return [{'k': 'plid', 'part': p, 'parts': parts, 'tier': tier} for p in range(parts)] + \
+        [{'k': 'bmc', 'tier': tier}, {'k': 'id', 'tier': tier}, {'k': 'src'}, {'k': 'srcx'}, {'k': 'perm', 'tier': tier}, {'k': 'subproc'}]
 
 
 def build(d, entries=None):
@@ -224,7 +225,7 @@ def run_chunk(chunk):
             for v in present:
                 u = '%08X' % v
                 for pos in range(8):
-                    for repl in '0F1':
+                    for repl in ('0F1' if chunk.get('tier') != 'thorough' else '0123456789ABCDEF'):
                         if u[pos] != repl:
                             qs.append({'q': 'plid', 'arg': u[:pos] + repl + u[pos + 1:]})
             for s in ('1', '0000001', '000000001', '0x1', 'ABCDEF0', '0xABCDEF012', 'zzzzzzzz'):
@@ -236,7 +237,8 @@ def run_chunk(chunk):
                     for order in (['sorted'] if i % 5 else ['sorted', 'reversed']):
                         _do(res, d, dict(c, order=order))
         elif k == 'bmc':
-            for v in [0, 1, 7, 10, 20, 4294967295, 100, 101, 102, 103, 104, 2, 8, 4294967294, 42949672950]:
+            for v in ([0, 1, 7, 10, 20, 4294967295, 100, 101, 102, 103, 104, 2, 8, 4294967294, 42949672950] +
+                      (list(range(3, 120)) if chunk.get('tier') == 'thorough' else [])):
                 for order in ('sorted', 'reversed'):
                     _do(res, d, {'q': 'bmc', 'arg': str(v), 'order': order})
         elif k == 'id':
@@ -264,8 +266,9 @@ def run_chunk(chunk):
                     _do(res, d, {'q': 'srcx', 'arg': list(sub)})
             _do(res, d, {'q': 'srcx', 'arg': ['ZZZZ9999'], 'hex': True})
         elif k == 'perm':
-            for files in ([0, 3, 12], [8, 12, 14], [13, 14, 15]):
-                sub = os.path.join(d, 'p%d' % files[0])
+            for files in ([[0, 3, 12], [8, 12, 14], [13, 14, 15]] if chunk.get('tier') != 'thorough' else
+                          [list(c) for c in itertools.combinations(range(len(DIR)), 3)][::7]):
+                sub = os.path.join(d, 'p' + '_'.join(str(x) for x in files))
                 os.mkdir(sub)
                 build(sub, [DIR[i] for i in files])
                 for perm in itertools.permutations(range(3)):
